@@ -61,6 +61,7 @@ void write_piece(client& c)
 }
 
 
+int g_extra_reply = 0;   // the target appends this many extra bytes (a fixed pattern) to its first answer
 // ---- the target: accepts connections, answers every received byte b with b ^ 0x55 (so both directions carry
 // distinguishable data), records what it got
 struct target
@@ -76,6 +77,7 @@ void target_read(target& t)
 		tp->in.append(tp->buf, n);
 		std::shared_ptr<std::string> out = std::make_shared<std::string>(tp->buf, n);
 		for (std::size_t i = 0; i < n; ++i) (*out)[i] = char((*out)[i] ^ 0x55);
+		if (tp->in.size() >= 4) { for (int i = 0; i < g_extra_reply; ++i) out->push_back(char('A' + i % 23)); g_extra_reply = 0; }
 		boost::asio::async_write(*tp->sock, asio::buffer(out->data(), out->size()), [tp, out](error_code const&, std::size_t) { target_read(*tp); });
 	});
 }
@@ -112,6 +114,7 @@ extern "C" int harness_main()
 	config cfg;
 	host_entry he; he.name = "target.test"; he.latency_ns = 2000000; he.addrs = { TA }; he.err = 0;
 	cfg.hosts.push_back(he);
+	he.name = std::string(200, 'n'); cfg.hosts.push_back(he);
 	simulation s(cfg);
 	cfg.net.append(std::make_shared<queue>(s.get_io_context(), 0, duration(1000000), 0, "net"));
 	asio::io_context cios(s, CA), pios(s, PA), t_ios(s, TA), tios(s);
@@ -122,9 +125,11 @@ extern "C" int harness_main()
 	tacc.async_accept(tsock, [&](error_code const& e) { if (e) return; ++t.accepted; tsock.non_blocking(true); target_read(t); });
 
 #if MODE == 0
-	int const kind = vp_choose(6);   // 0 v5 ip ok, 1 v5 name ok, 2 v5 ip refused, 3 v5 name unresolvable, 4 v4 ok, 5 v4 refused
+	int const kind = vp_choose(8);   // 0 v5 ip ok, 1 v5 name ok, 2 v5 ip refused, 3 v5 name unresolvable, 4 v4 ok, 5 v4 refused, 6 v5 200-character name, 7 v5 ip ok with a reply larger than a congestion window
 	vp_scenario(kind);
-	int const version = kind >= 4 ? 4 : 5;
+	int const version = (kind == 4 || kind == 5) ? 4 : 5;
+	static std::string long_name(200, 'n');
+	if (kind == 7) g_extra_reply = 4000;
 	socks_server* proxy = new socks_server(pios, 1080, version);
 	std::string neg;
 	if (kind == 0) neg = v5_connect_ip(TA.to_v4(), 9000);
@@ -132,8 +137,11 @@ extern "C" int harness_main()
 	else if (kind == 2) neg = v5_connect_ip(TA.to_v4(), 9001);
 	else if (kind == 3) neg = v5_connect_name("nohost.test", 9000);
 	else if (kind == 4) neg = v4_connect(TA.to_v4(), 9000);
-	else neg = v4_connect(TA.to_v4(), 9001);
-	bool const ok = kind == 0 || kind == 1 || kind == 4;
+	else if (kind == 5) neg = v4_connect(TA.to_v4(), 9001);
+	else if (kind == 6) neg = v5_connect_name(long_name.c_str(), 9000);
+	else neg = v5_connect_ip(TA.to_v4(), 9000);
+	bool const ok = kind == 0 || kind == 1 || kind == 4 || kind == 6 || kind == 7;
+	int const extra = kind == 7 ? 4000 : 0;
 	// a SOCKS client waits for each reply before it goes on: greeting (v5), request, then payload
 	client c; tcp::socket csock(cios); asio::high_resolution_timer ctimer(tios);
 	c.sock = &csock; c.timer = &ctimer;
@@ -212,7 +220,8 @@ extern "C" int harness_main()
 		vp_assert(t.accepted == 1, 10);
 		vp_assert(t.in.size() == 4, 11);
 		for (int i = 0; i < 4 && i < int(t.in.size()); ++i) vp_assert((unsigned char)t.in[std::size_t(i)] == payload[i], 12);
-		vp_assert(c.in.size() == hdr + 4, 13);
+		vp_assert(c.in.size() == hdr + 4 + std::size_t(extra), 13);
+		for (int i = 0; i < extra && hdr + 4 + std::size_t(i) < c.in.size(); i += 97) vp_assert(c.in[hdr + 4 + std::size_t(i)] == char('A' + i % 23), 19);
 		for (int i = 0; i < 4 && hdr + i < c.in.size(); ++i) vp_assert((unsigned char)c.in[hdr + std::size_t(i)] == (unsigned char)(payload[i] ^ 0x55), 14);
 		vp_assert(!c.eof, 15);
 	}
